@@ -11,6 +11,7 @@ CONSTANTS
   PfReserve = 0
   PfMax = 1
   Eager = FALSE
+  Journaling = FALSE
 INVARIANT ConfAtEnd
 POSTCONDITION TraceAccepted
 CHECK_DEADLOCK FALSE
